@@ -110,7 +110,8 @@ def run(ctx, res):
     res.rule = ('sequences of Reactor.write(frame) (frames of 0-300 bytes) and _select() passes with scripted send() outcomes (accept 1, '
                 '2, 3, 7, 50 or all bytes; EAGAIN; EWOULDBLOCK) on the real Reactor with a scripted socket and the real wake-up Queue; '
                 'after every step bytes-on-socket / unsent tail / queue length are compared with the Coq model, the stream with the '
-                'frames in put order, and select()-readability of the queue with qsize(); plus a probe of the real Queue and (thorough) '
+                'frames in put order, and select()-readability of the queue with qsize(); plus probes of the real Queue (random put/get; a 700-item backlog put by a producer thread while the consumer is not looking, '
+                'then drained only while select()-readable) and (thorough) '
                 'a threaded soak over a socketpair with a 4 KiB send buffer; non-trivial = a partial send or would-block happened')
     cases = []
     if ctx.scale == 1:
@@ -120,6 +121,12 @@ def run(ctx, res):
             res.count('queue_probe')
             if p:
                 res.failures.append(dict(signature='C20: ' + p.split(' but ')[0], what=p, case=dict(probe='queue', k=k)))
+        for k in range(ctx.n(1, 3)):
+            p = rd.queue_backlog_probe()
+            res.evaluations += 1
+            res.count('queue_backlog_probe')
+            if p:
+                res.failures.append(dict(signature='C20: queue backlog', what=p, case=dict(probe='backlog', k=k)))
         if ctx.tier == 'thorough':
             for k in range(3):
                 p = threaded_soak(ctx.rng('soak%d' % k))
@@ -154,6 +161,8 @@ def run(ctx, res):
 def replay(ctx, case):
     if case.get('probe') == 'queue':
         return rd.queue_probe(ctx.rng('q%d' % case['k']))
+    if case.get('probe') == 'backlog':
+        return rd.queue_backlog_probe()
     if case.get('probe') == 'soak':
         return threaded_soak(ctx.rng('soak'))
     evs = [(e[0], common.unjbytes(e[1]) if e[0] == 'put' else e[1]) for e in case['events']]
